@@ -679,8 +679,12 @@ def other_name(names, cur, rnd):
     return rnd.choice(c)
 
 
-def mutate(doc, idx, cls, rnd, ctx):
-    """-> (override dict for Doc.render, human-readable detail).  ctx: donors, foreign, docs"""
+TAG_OF = {"RSAKey": "RSA", "ECDSAKey": "EC", "Ed25519Key": "OPENSSH"}
+
+
+def mutate(doc, idx, cls, rnd, ctx, loader=None):
+    """-> (override dict for Doc.render, human-readable detail).  ctx: donors, foreign, docs; loader: the class that will
+    be asked to load the result (a wrong loader gets a tag line that names it)"""
     name, typ, layer = doc.grammar()[idx - 1]
     donors = ctx["donors"]
 
@@ -726,7 +730,9 @@ def mutate(doc, idx, cls, rnd, ctx):
             "missing": [],
             "duplicated": [line, line],
             "garbled": [line.replace("PRIVATE", rnd.choice(["PRIVAT", "PRIVATE ", "PUBLIC", "PRIVATE-", "PRlVATE"]))],
-            "other_tag": [line.replace(" %s " % word, " %s " % other_name(["RSA", "EC", "OPENSSH", "DSA"], word, rnd))],
+            "other_tag": [line.replace(" %s " % word, " %s " % (
+                TAG_OF[loader] if loader and loader != NATURAL[doc.kt] and TAG_OF[loader] != word
+                else other_name(["RSA", "EC", "OPENSSH", "DSA"], word, rnd)))],
             "generic_tag": [line.replace(" %s " % word, " ")],
             "lowercase": [line.lower()],
             "leading_space": [rnd.choice([" ", "\t", "  "]) + line],
@@ -956,8 +962,8 @@ def mutate(doc, idx, cls, rnd, ctx):
         elif cls == "bad_utf8":
             new = sstr(rnd.choice([b"\xff\xfe" + enc[6:], enc[4:-1] + b"\xc3", b"\x80" + enc[4:]]))
         elif cls == "other_valid":
-            pool = {"ciphername": ["none", "aes256-ctr", "aes256-cbc", "aes128-ctr", "aes128-cbc", "3des-cbc",
-                                   "aes256-gcm@openssh.com", "aes128-gcm@openssh.com", "aes192-ctr"],
+            pool = {"ciphername": ["none", "aes256-ctr", "aes256-cbc", "aes128-ctr", "3des-cbc", "aes256-gcm@openssh.com",
+                                   "aes128-gcm@openssh.com", "aes256-gcm@openssh.com", "aes128-gcm@openssh.com"],
                     "kdfname": ["none", "bcrypt"],
                     "keytype": sorted(SSH_NAME.values()) + ["ssh-dss", "ssh-ed448"],
                     "curve": ["nistp256", "nistp384", "nistp521"]}[name]
@@ -1303,7 +1309,7 @@ def run_one(case, doc, rnd, ctx, path, uniform=False):
     elif case["idx"] == 0:
         data, detail = mutate_file(doc, case["class"], rnd, ctx)
     else:
-        ov, detail = mutate(doc, case["idx"], case["class"], rnd, ctx)
+        ov, detail = mutate(doc, case["idx"], case["class"], rnd, ctx, loader=case["cls"])
         data = doc.render(ov)
     entry = rnd.choice(["file", "file", "fobj", "fobj", "from_path"]) if ctx.get("from_path", True) else \
         rnd.choice(["file", "fobj"])
@@ -1424,7 +1430,7 @@ def worker_main(jobs, seed, deadline, wid, outpath):
     os._exit(0)
 
 
-def run_parallel(jobs, seed, deadline, nworkers, workdir):
+def run_parallel(jobs, seed, deadline, nworkers, workdir, on_started=None):
     """-> list of (job, record | None, driver error | None); a job that killed its worker comes back as a record with
     outcome 'crashed' (re-derived in the parent without running the loader) and the rest of the slice is resumed"""
     import json
@@ -1440,6 +1446,8 @@ def run_parallel(jobs, seed, deadline, nworkers, workdir):
             p = mp.Process(target=worker_main, args=(sl, seed, deadline, wid, outpath))
             p.start()
             procs.append((wid, sl, outpath, p))
+        if on_started and gen == 0:
+            on_started()
         pending = []
         for wid, sl, outpath, p in procs:
             p.join()
